@@ -955,23 +955,25 @@ def strip(e):
     return e
 
 
-def expand(fn, e, depth=0):
+def expand(fn, e, depth=0, keep=None):
     """replace mutably-borrowed single-definition locals (iterators, builders) by their initialiser so that
     adapter chains become visible: find(_14, p) -> find(rev(into_iter(x)), p)"""
     if not isinstance(e, tuple) or depth > 30:
         return e
     if e[0] == 'var':
         ds = fn.defs().get(e[1], [])
+        if keep is not None and keep(fn.local_ty(e[1])):
+            return e
         if len(ds) == 1 and not (1 <= e[1] <= fn.nargs):
-            return expand(fn, fn.expr_of_def(ds[0]), depth + 1)
+            return expand(fn, fn.expr_of_def(ds[0]), depth + 1, keep)
         return e
     out = []
     for x in e:
         if isinstance(x, tuple):
-            out.append(expand(fn, x, depth + 1))
+            out.append(expand(fn, x, depth + 1, keep))
         elif isinstance(x, list):
-            out.append([(y[0], expand(fn, y[1], depth + 1)) if (isinstance(y, tuple) and len(y) == 2 and isinstance(y[0], str) and isinstance(y[1], tuple))
-                        else (expand(fn, y, depth + 1) if isinstance(y, tuple) else y) for y in x])
+            out.append([(y[0], expand(fn, y[1], depth + 1, keep)) if (isinstance(y, tuple) and len(y) == 2 and isinstance(y[0], str) and isinstance(y[1], tuple))
+                        else (expand(fn, y, depth + 1, keep) if isinstance(y, tuple) else y) for y in x])
         else:
             out.append(x)
     return tuple(out)
